@@ -336,4 +336,8 @@ example : FieldsFit { pieceMoved := 6, source := 60, target := 62, castle := tru
 example : Rs.Move.get_piece_moved 0x2b = some 3 := by decide
 example : Rs.Move.set_source_square 0 63 = some 0x3f000 := by decide
 
+#print axioms rs_move_masks
+#print axioms rs_move_shifts
+#print axioms rs_piece_consts
+
 end Inkayaku.Translated
